@@ -96,6 +96,7 @@ type c07case struct {
 	Ids []c07ident `json:"ids"` // the identity set behind the `validatorsCache` ARGUMENT of ValidateBlockCert
 	// the node's own live state (chain.appState.ValidatorsCache): the same set, or another one (absent = a fresh
 	// node, nobody online) - fast sync and fork validation pass a cache that is not the live one
+	Chain    *c07chain  `json:"chain,omitempty"` // a real-chain scenario (chain.go) instead of a synthetic registry
 	LiveSame bool       `json:"live_same,omitempty"`
 	Live     []c07ident `json:"live,omitempty"`
 	Seed   int64      `json:"seed"`
@@ -350,17 +351,19 @@ func c07newFx(cs c07case) (*c07fx, error) {
 	return fx, nil
 }
 
-func (fx *c07fx) newLine() string {
+func (fx *c07fx) newLine() string { return c07newLine(c07addr(fx.cs.God), fx.recs) }
+
+func c07newLine(god common.Address, recs []c07rec) string {
 	var sb strings.Builder
 	sb.WriteString("new ")
-	sb.WriteString(c07dec(c07addr(fx.cs.God)))
+	sb.WriteString(c07dec(god))
 	b := func(x bool) byte {
 		if x {
 			return '1'
 		}
 		return '0'
 	}
-	for _, r := range fx.recs {
+	for _, r := range recs {
 		sb.WriteByte(' ')
 		sb.WriteString(c07dec(r.Addr))
 		sb.WriteByte(':')
@@ -991,6 +994,10 @@ func c07run(cs c07case) (out *c07out, failure string, failOp int) {
 }
 
 func c07runRaw(cs c07case) (out *c07out, failure string, failOp int) {
+	if cs.Chain != nil {
+		out, failure = c07runChain(*cs.Chain)
+		return out, failure, -1
+	}
 	out = &c07out{}
 	failOp = -1
 	fx, err := c07newFx(cs)
@@ -1022,6 +1029,14 @@ func c07runRaw(cs c07case) (out *c07out, failure string, failOp int) {
 
 func c07sigClass(f string) string {
 	switch {
+	case strings.Contains(f, "sub-chain") && strings.Contains(f, "refused"):
+		return "C07:sub-chain-genuine-certificates-refused"
+	case strings.Contains(f, "sub-chain") && strings.Contains(f, "accepted"):
+		return "C07:sub-chain-forged-certificate-accepted"
+	case strings.Contains(f, "live cache"):
+		return "C07:live-vs-reloaded-committee-differs"
+	case strings.Contains(f, "chain history broken"):
+		return "C07:chain-history-broken"
 	case strings.Contains(f, "accepted with"):
 		return "C07:accepted-without-quorum"
 	case strings.Contains(f, "accepted for another"):
@@ -1041,6 +1056,9 @@ func c07sigClass(f string) string {
 }
 
 func c07shrink(cs c07case) c07case {
+	if cs.Chain != nil {
+		return c07shrinkChain(cs)
+	}
 	_, f0, _ := c07run(cs)
 	cls := c07sigClass(f0)
 	deadline := time.Now().Add(40 * time.Second)
@@ -1754,7 +1772,7 @@ func init() {
 			return nil
 		}
 		thorough := c.Tier == "thorough"
-		c.Rep.Rule = "registries (0..400 identities: god-only, <=8 switch table, pools with owners inside/outside the registry, discrimination none/some/heavy/all) on a real identity tree + ValidatorsCache passed as the `validatorsCache` ARGUMENT, while the chain object's own live appState cache is the same set (25%), a fresh node's (25%) or a set of another size from every threshold class (50%); per registry: committee draws (steps 1..149, 253-255, explicit limits incl. n-1, n, n+1), certificates built from real secp256k1 signatures with exactly need-1 / need / need+1 distinct eligible voters plus operators (duplicates, same voter other flags, outsiders, non-eligible members, other round/step/parent/hash signed, flag mismatch, 5 byte-level forgeries, certificate-level other round/hash/step, other parent/block context, both sync paths), vote sets through the real AddVote + countVotes (equivocation, stale/future rounds, late votes; dedicated cases with discriminated/pooled committee members whose need-1 / need / need+1 eligible votes arrive over up to three 500 ms polling passes of the real loop) whose certificates go back through ValidateBlockCert; 1 case in 40: registry of <= 7 identities with EVERY subset of (eligible voters + a non-eligible member + an outsider) as a certificate; plus the table of the real committee-size / threshold / subtrahend functions over cnt <= N for the four consensus versions; distinct = distinct (registry, op); non-trivial = certificate with at least one signature or required <= 0"
+		c.Rep.Rule = "registries (0..400 identities: god-only, <=8 switch table, pools with owners inside/outside the registry, discrimination none/some/heavy/all) on a real identity tree + ValidatorsCache passed as the `validatorsCache` ARGUMENT, while the chain object's own live appState cache is the same set (25%), a fresh node's (25%) or a set of another size from every threshold class (50%); per registry: committee draws (steps 1..149, 253-255, explicit limits incl. n-1, n, n+1), certificates built from real secp256k1 signatures with exactly need-1 / need / need+1 distinct eligible voters plus operators (duplicates, same voter other flags, outsiders, non-eligible members, other round/step/parent/hash signed, flag mismatch, 5 byte-level forgeries, certificate-level other round/hash/step, other parent/block context, both sync paths), vote sets through the real AddVote + countVotes (equivocation, stale/future rounds, late votes; dedicated cases with discriminated/pooled committee members whose need-1 / need / need+1 eligible votes arrive over up to three 500 ms polling passes of the real loop) whose certificates go back through ValidateBlockCert; 1 case in 40: registry of <= 7 identities with EVERY subset of (eligible voters + a non-eligible member + an outsider) as a certificate; plus real-chain routes (chain.go): two/three real replicas over histories with status switches, delegations, kills and a validation ceremony end (resp. god-only mode with god hand-overs); before every block the live (incrementally updated) validators cache of the proposing node is compared with a reloaded cache, the reference committee and the model, exact-quorum / quorum-1 certificates by real keys go through ValidateBlockCert, and windows of 2-5 blocks go through the real ValidateSubChain of a lagging replica with genuine certificates (must pass) and with the certificate of an IdentityUpdate block replaced by one of the validator set AFTER that block / an under-quorum one / none (must be refused); plus the table of the real committee-size / threshold / subtrahend functions over cnt <= N for the four consensus versions; distinct = distinct (registry, op); non-trivial = certificate with at least one signature or required <= 0"
 		maxCnt := 200000
 		c07table(c, maxCnt, thorough)
 		n := c.Scale(260, 12000)
@@ -1814,6 +1832,17 @@ func init() {
 		}
 		close(jobs)
 		wg.Wait()
+		// real-chain routes (global virtual clock: run one after the other, after the pool has drained)
+		for j, nch := 0, c.Scale(5, 60); j < nch; j++ {
+			ch := c07chain{Mode: []string{"switch", "god", "switch", "god", "switch"}[j%5], Seed: c.Seed*1000 + int64(j), Blocks: 48}
+			if ch.Mode == "god" {
+				ch.Blocks = 16
+			}
+			cs := c07case{Chain: &ch}
+			out, f, _ := c07run(cs)
+			c07emit(c, cs, out, f)
+			c.Hit("chain-scenario:" + ch.Mode)
+		}
 		for i, r := range results {
 			c07emit(c, r.cs, r.out, r.fail)
 			reg, _ := json.Marshal(struct {
